@@ -39,8 +39,10 @@ NS_SVG = trees.NS_SVG
 NS_POOL = [None, {}, {'svg': NS_SVG}, {'svg': 'urn:other'}, {'svg': NS_SVG, 'x': 'urn:x'}, {'x': 'urn:x', 'svg': NS_SVG},
            {'': NS_SVG}, {'SVG': NS_SVG}]
 CUSTOM_POOL = [None, {}, {':--x': 'a'}, {':--x': 'b'}, {':--x': 'a', ':--y': 'b'}, {':--y': 'b', ':--x': 'a'},
-               {':--X': 'a'}, {':--x': 'a '}]
-PATTERNS = ['p', 'p ', 'P', 'a > b', 'a>b', ':is(a, b)', ':is(b, a)', 'svg|circle', '*|circle', 'a:--x', 'a:--y',
+               {':--X': 'a'}, {':--x': 'a '},
+               # same text for :--y, different definition of the :--x it refers to
+               {':--x': 'p', ':--y': 'div :--x'}, {':--x': 'li', ':--y': 'div :--x'}, {':--x': 'a', ':--y': ':--x > b'}]
+PATTERNS = ['p', 'p ', 'P', 'a > b', 'a>b', ':is(a, b)', ':is(b, a)', 'svg|circle', '*|circle', 'a:--x', 'a:--y', ':--y',
             ':nth-child(2n+1)', ':nth-child(odd)', '[type="a"]', "[type='a']", '[type=a i]', ':lang(en)', ':lang("en")',
             ':-soup-contains("x")', 'li:has(> a)']
 FGCFG = FG.Cfg(ns_forms=True, prefixes=('svg', 'x'), custom=('--x',), max_depth=2)
@@ -375,12 +377,13 @@ def run_history(history):
 
 def make_machine(col):
     pool_keys = []
-    for pat in PATTERNS[:12]:
+    for pat in PATTERNS[:13]:
         for ns in NS_POOL[:6]:
             for cu in CUSTOM_POOL[:6]:
                 if key_valid(pat, cu):
                     pool_keys.append([pat, ns, cu, 0])
     pool_keys = pool_keys[::7] + [[p, None, None, sv.DEBUG] for p in PATTERNS[:4]]
+    pool_keys += [[p, None, cu, 0] for p in (':--y', 'a:--y', 'a:--x') for cu in CUSTOM_POOL[8:] if key_valid(p, cu)]
 
     class Machine(RuleBasedStateMachine):
         @initialize()
